@@ -58,6 +58,10 @@ inductive ULabel
   | request (c : HCh)
   | recv (c : HCh)
   | giveUp (c : HCh)
+  /-- a requester, before it writes its query, takes a reply nobody asked for out of the channel and
+  drops it (`select { case <-ch: default: }` in `QueryColor` / `QueryForeground` / `QueryBackground`
+  and `CursorPosition`): never waits -/
+  | dropStale (c : HCh)
   deriving DecidableEq, Repr
 
 def upd (f : HCh → Nat) (c : HCh) (v : Nat) : HCh → Nat := fun c' => if c' = c then v else f c'
@@ -96,6 +100,7 @@ def unext (qcap : Nat) (s : USys) : ULabel → Option USys
       else none
   | .giveUp c =>
       if c.canGiveUp ∧ s.waiting c > 0 then some { s with waiting := upd s.waiting c (s.waiting c - 1) } else none
+  | .dropStale c => some { s with occ := upd s.occ c (s.occ c - 1) }
 
 inductive UReachable (qcap : Nat) : USys → Prop
   | init : UReachable qcap {}
